@@ -86,12 +86,17 @@ func init() {
 		rulePairDerived,
 		func(p *Prog, r *Report) { ruleFoldTotal(p, r, []string{"mxj.xmlToMapParser"}) },
 		func(p *Prog, r *Report) { ruleTextNonEmpty(p, r, []string{"mxj.xmlToMapParser"}) },
+		func(p *Prog, r *Report) { ruleCastOpaque(p, r, []string{"mxj.xmlToMapParser"}) },
 		panicRules(grpMapDecode))
 
 	register("C02",
 		"Structural agreement of decoder and encoder conventions: TABLE.keys (both halves read the shared key variables), FOLD.total (the decoder's snake-case folding replaces every hyphen, so it is idempotent: the names the encoder writes decode to themselves), PAIR.derived (lenAttrPrefix tracks attrPrefix), TABLE.partition (attribute / text / element partition of a map's keys is the same predicate in both scans), ESC.flow (every Map value reaches the output escaped unless xmlEscapeChars is known false), TABLE.escape (entity table, order, no unescaped early return), ORDER (sorted emission), WALK.arms (every list member and collected child is encoded), TAGS.protocol (path-sensitive typestate of the Map element encoder: on every path feasible for a decoder-shaped value the buffer writes follow start tag, attributes, close, content, end tag / self-close; start and end tag name the same parameter; no successful return leaves an open element), ROOT.single (each encoder passes exactly one call of the element encoder on every path that returns a document; the call on the receiver's single entry is guarded by len == 1), TAGS.content (on no path is the element completed while its text entry or scalar value — string, number or boolean, as float/bool casting produces — has not been written). Not decided: equality of the second decode with the first; well-formedness of names and of the sequence encoder's output."+levelNote,
 		nil,
 		ruleTagProtocol, func(p *Prog, r *Report) { ruleTagContent(p, r, "map") }, ruleTableKeys, ruleRootSingle,
+		ruleInflCover,
+		func(p *Prog, r *Report) { ruleElemAlways(p, r, []string{"mxj.marshalMapToXmlIndent"}) },
+		func(p *Prog, r *Report) { ruleTextNonEmpty(p, r, []string{"mxj.xmlToMapParser"}) },
+		func(p *Prog, r *Report) { ruleCastOpaque(p, r, []string{"mxj.xmlToMapParser"}) },
 		func(p *Prog, r *Report) { ruleFoldTotal(p, r, []string{"mxj.xmlToMapParser"}) },
 		func(p *Prog, r *Report) { ruleRenderLossless(p, r, []string{"mxj.marshalMapToXmlIndent"}) }, rulePairDerived, ruleTablePartition, ruleEsc, ruleTableEscape, ruleOptExcl,
 		func(p *Prog, r *Report) { ruleOrder(p, r, grpMapEncode) },
@@ -106,7 +111,8 @@ func init() {
 			ruleOwnPrivate(p, r, []string{"mxj.Map.Xml", "mxj.Map.XmlIndent", "mxj.AnyXml", "mxj.AnyXmlIndent"})
 		},
 		func(p *Prog, r *Report) { ruleWalkArms(p, r, []string{"mxj.marshalMapToXmlIndent"}) },
-		ruleAnyXmlList, ruleTablePartition, ruleEsc, ruleTableEscape,
+		ruleAnyXmlList, ruleAnyXmlNilOnly, ruleTablePartition, ruleEsc, ruleTableEscape,
+		func(p *Prog, r *Report) { ruleElemAlways(p, r, []string{"mxj.marshalMapToXmlIndent"}) },
 		func(p *Prog, r *Report) {
 			ruleErr(p, r, []string{"mxj.Map.Xml", "mxj.Map.XmlIndent", "mxj.AnyXml", "mxj.AnyXmlIndent"}, "Map encoders and AnyXml")
 		})
@@ -132,7 +138,7 @@ func init() {
 	register("C05",
 		"Structural clauses of 'special characters survive; invalid output is an error': ESC.flow (value sinks of both encoders), TABLE.escape, OPT.excl (encoder- and decoder-side escaping never both on), VALID.coupling (each of the four encoders validates the very bytes it returns, under xmlCheckIsValid, to their end, with a decoder that keeps the default strict settings and reads a copy, not the output buffer), ERR.path on the four encoders (an encoder or validator error always reaches the caller), TAGS.protocol / TAGS.seqprotocol (the markup the two element encoders write around the escaped values is a properly nested start tag / attributes / content / end tag sequence on every path). Not decided: exact value recovery, absence of double escaping for already-escaped input, well-formedness of names."+levelNote,
 		nil,
-		ruleTagProtocol, ruleTagProtocolSeq, ruleEsc, ruleTableEscape, ruleOptExcl, ruleValidCoupling, ruleRootSingle,
+		ruleTagProtocol, ruleTagProtocolSeq, ruleEsc, ruleTableEscape, ruleOptExcl, ruleValidCoupling, ruleRootSingle, ruleInflCover,
 		func(p *Prog, r *Report) {
 			ruleErr(p, r, []string{"mxj.Map.Xml", "mxj.Map.XmlIndent", "mxj.MapSeq.Xml", "mxj.MapSeq.XmlIndent"}, "the four XML encoders")
 		})
@@ -149,7 +155,7 @@ func init() {
 		func(p *Prog, r *Report) {
 			ruleWrapCompose(p, r, []wrapSpec{{"mxj.Map.Copy", []string{"mxj.Map.Json", "mxj.NewMapJson"}, false}})
 		},
-		ruleWrapWriter, ruleJsonListWrap, ruleJsonIdentity,
+		ruleWrapWriter, ruleJsonListWrap, ruleJsonIdentity, ruleOptWriters,
 		func(p *Prog, r *Report) {
 			ruleErr(p, r, concat(grpJsonEncode, []string{"mxj.NewMapJson", "mxj.NewMapJsonReader", "mxj.NewMapJsonReaderRaw"}), "JSON functions")
 		})
@@ -159,6 +165,7 @@ func init() {
 		nil,
 		func(p *Prog, r *Report) { rulePairCount(p, r, []string{"mxj.Map.oldValuesForPath"}) },
 		func(p *Prog, r *Report) { ruleIterFresh(p, r, []string{"mxj.parsePath"}) },
+		func(p *Prog, r *Report) { rulePathVerbatim(p, r, "mxj.parsePath") },
 		func(p *Prog, r *Report) {
 			in := map[string]bool{}
 			for _, f := range p.scopeFuncs(r, "PRESENCE.commaok", []string{"mxj.Map.ValuesForPath", "mxj.Map.ValueForPath", "mxj.Map.Exists"}) {
@@ -169,6 +176,7 @@ func init() {
 		func(p *Prog, r *Report) { ruleWalkProgress(p, r, []string{"mxj.valuesForKeyPath"}) },
 		func(p *Prog, r *Report) { ruleWalkCollect(p, r, []string{"mxj.valuesForKeyPath"}) },
 		func(p *Prog, r *Report) { ruleWalkNoEarlyExit(p, r, []string{"mxj.valuesForKeyPath"}) },
+		rulePredLocal,
 		func(p *Prog, r *Report) {
 			ruleScanComplete(p, r, p.scopeFuncs(r, "SCAN.complete", []string{"mxj.Map.ValuesForPath"}))
 		},
@@ -216,6 +224,9 @@ func init() {
 			rulePresence(p, r, func(n string) bool { return in[n] }, "key search")
 		},
 		func(p *Prog, r *Report) { rulePairCount(p, r, []string{"mxj.Map.ValuesForKey"}) },
+		func(p *Prog, r *Report) {
+			ruleWrapCompose(p, r, []wrapSpec{{"mxj.Map.ValueForKey", []string{"mxj.Map.ValuesForKey"}, true}})
+		},
 		func(p *Prog, r *Report) { ruleInflFilter(p, r, []string{"mxj.hasKey", "mxj.valuesForKeyPath"}) },
 		func(p *Prog, r *Report) { ruleInflCrumb(p, r, []string{"mxj.hasKeyPath"}) },
 		func(p *Prog, r *Report) { ruleShortestMetric(p, r, []string{"mxj.Map.PathForKeyShortest"}) },
@@ -232,6 +243,8 @@ func init() {
 			ruleWalkTotal(p, r, []walkerSpec{{"mxj.getLeafNodes", []string{"param:noattr", "load(mxj.attrPrefix)"}}})
 		},
 		ruleWalkLeaf,
+		func(p *Prog, r *Report) { ruleLeafPath(p, r, "mxj.getLeafNodes") },
+		func(p *Prog, r *Report) { rulePathVerbatim(p, r, "mxj.parsePath") },
 		func(p *Prog, r *Report) { ruleWalkNoEarlyExit(p, r, []string{"mxj.getLeafNodes", "mxj.valuesForKeyPath"}) },
 		func(p *Prog, r *Report) {
 			ruleWalkCurrent(p, r, p.scopeFuncs(r, "WALK.current", []string{"mxj.Map.ValuesForPath"}))
@@ -263,7 +276,7 @@ func init() {
 		nil,
 		rulePairUpdate,
 		func(p *Prog, r *Report) { ruleWalkNoEarlyExit(p, r, []string{"mxj.updateValuesForKeyPath", "mxj.updateValue"}) },
-		rulePredLocal,
+		rulePredLocal, ruleOptWriters,
 		func(p *Prog, r *Report) { rulePathWhole(p, r, "mxj.Map.UpdateValuesForPath") },
 		func(p *Prog, r *Report) { ruleWalkReentry(p, r, p.scopeFuncs(r, "WALK.reentry", []string{"mxj.Map.UpdateValuesForPath"})) },
 		func(p *Prog, r *Report) {
